@@ -9892,6 +9892,11 @@ check_coalescence_rate_time_windows(const tsk_treeseq_t *self,
     for (i = 0; i < (tsk_id_t) num_sample_sets; i++) {
         for (j = 0; j < (tsk_id_t) sample_set_sizes[i]; j++) {
             n = sample_sets[k++];
+            /* The sample sets have not been validated yet at this point */
+            if (n < 0 || n >= (tsk_id_t) num_nodes) {
+                ret = tsk_trace_error(TSK_ERR_NODE_OUT_OF_BOUNDS);
+                goto out;
+            }
             if (nodes_time[n] != time_windows[0]) {
                 ret = tsk_trace_error(TSK_ERR_BAD_SAMPLE_PAIR_TIMES);
                 goto out;
